@@ -35,6 +35,10 @@ def candidates():
         for e in [-5, -2, 1]:
             out["scaled<%s,%d,3>" % (rn, e)] = "c13::scaled<%s,%d,3>" % (rc, e)
             out["scaled<%s,%d,8>" % (rn, e)] = "c13::scaled<%s,%d,8>" % (rc, e)
+    for d in (10, 20, 30, 40, 50, 60):
+        for e in (1, 2, -1, -3):
+            out["scaled<e%d,%d,10>" % (d, e)] = "c13::scaled<cnl::elastic_integer<%d>,%d,10>" % (d, e)
+        out["scaled<e%d,-4,2>" % d] = "c13::scaled<cnl::elastic_integer<%d>,-4,2>" % d
     for e in range(-70, 71):
         rc, rn = rng.choice(REPS)
         out.setdefault("scaled<%s,%d,2>" % (rn, e), "c13::scaled<%s,%d,2>" % (rc, e))
@@ -53,7 +57,21 @@ def select(tier, seed):
     n = 110 if tier == "quick" else len(uni)
     chosen = uni[:ncore] + rng.sample(uni[ncore:], max(0, min(len(uni) - ncore, n - ncore)))
     ks = [("ints<%s>" % tn, 'c13::ints<%s>' % tc) for tc, tn in INT_TYPES]
+    el = [k for k in uni if k["desc"].startswith("scaled<e")]
+    chosen += [k for k in el if k not in chosen]
     return ks + [(k["desc"], k["stmt"]) for k in chosen]
+
+
+def capacity_stmts(tier, first_kid):
+    """capacity of the fixed-capacity variants for every digit count (elastic 1..127, wide_integer 128..N)"""
+    st = [("capacity elastic 1..127", 'c13::capacity_elastic("capacity elastic 1..127", %d, std::make_integer_sequence<int, 127>{});' % first_kid)]
+    top = 640 if tier == "quick" else 2000
+    kid = first_kid + 1
+    for base in range(128, top, 64):
+        d = "capacity wide %d..%d" % (base, base + 63)
+        st.append((d, 'c13::capacity_wide<%d>("%s", %d, std::make_integer_sequence<int, 64>{});' % (base, d, kid)))
+        kid += 1
+    return st
 
 
 DIG = "0123456789abcdefghijklmnopqrstuvwxyz"
@@ -115,6 +133,7 @@ def judge(res13, res14, job):
             ws.append(w)
         t["viol"][cls] = (n + 1, ws)
     cap_text = {}
+    long_text = {}
     static_forms = {}
     for line in job.raw:
         p = line.split(" ")
@@ -182,6 +201,8 @@ def judge(res13, res14, job):
             v = Fr(rep) * Fr(R) ** E
             if ln == k["capacity"]:
                 cap_text[(kid, vidx)] = txt
+            if ln >= long_text.get((kid, vidx), (0, ""))[0]:
+                long_text[(kid, vidx)] = (ln, txt)
             pr = parse_text(txt)
             if pr is None:
                 viol(t14, "text_does_not_parse", dict(w14, exp="-?digits*[.digits*][e-?digits]"))
@@ -218,6 +239,20 @@ def judge(res13, res14, job):
                 t14["nt"] += 1
             if len(t14["samples"]) < 2 and d != 0:
                 t14["samples"].append({"inputs": w["in"], "expected": "%s truncated" % str(float(v)), "observed": txt})
+        elif tag == "Q" and len(p) == 7:
+            kid, D, sg, wide, base, cap = (int(x) for x in p[1:])
+            k = kd.get(kid)
+            if k is None:
+                continue
+            t13 = tal(T13, kid)
+            t13["judged"] += 1
+            t13["nt"] += 1
+            mag = (1 << D) if (wide and sg) else (1 << D) - 1   # most negative value: -2^D for wide_integer, -(2^D-1) for elastic_integer
+            need = len(to_base(mag, base)) + (1 if sg else 0)
+            if cap < need:
+                viol(t13, "fixed_capacity_too_small", {"in": "%s digits=%d signed=%d base=%d" % ("wide_integer" if wide else "elastic_integer", D, sg, base), "exp": "capacity >= %d" % need, "obs": "capacity %d" % cap})
+            elif cap == need:
+                t13["classes"]["capacity_exactly_sufficient"] = t13["classes"].get("capacity_exactly_sufficient", 0) + 1
         elif tag == "S" and len(p) >= 6:
             kid, vidx, form, kind = int(p[1]), int(p[2]), p[3], p[4]
             txt = " ".join(p[5:])
@@ -239,6 +274,17 @@ def judge(res13, res14, job):
         t14 = tal(T14, kid)
         rep = vals[(kid, vidx)]
         t14["judged"] += 1
+        if form in ("stream_oct", "stream_hex"):
+            b_ = 8 if form == "stream_oct" else 16
+            alts = {to_base(rep, 10), to_base(rep, b_), to_base(rep % (1 << 128), b_)}
+            if txt.lower() not in alts:
+                viol(t14, "stream_with_sticky_base_flag_wrong", {"in": "%s value(rep)=%d %s" % (k["k"], rep, form), "exp": " or ".join(sorted(alts)), "obs": txt})
+                if any(a_.startswith(txt.lower()) for a_ in alts):
+                    # a proper prefix of the numeral: the inserter's fixed buffer had no room for the value (C13)
+                    viol(tal(T13, kid), "fixed_capacity_variant_truncated:" + form, {"in": "%s value(rep)=%d %s" % (k["k"], rep, form), "exp": " or ".join(sorted(alts)), "obs": txt})
+            else:
+                t14["nt"] += 1
+            continue
         if form.startswith("staticB"):
             want = to_base(rep, int(form[7:]))
         else:
@@ -251,6 +297,22 @@ def judge(res13, res14, job):
             viol(t14, "fixed_capacity_text_differs:" + form, {"in": "%s value(rep)=%d %s" % (k["k"], rep, form), "exp": want, "obs": txt})
         else:
             t14["nt"] += 1
+        if k["kind"] != "int" and (k["exp"] >= 0 or k["radix"] == 10):
+            # "the fixed-capacity variants always provide enough room" (C13) + "exact whenever the full expansion fits the buffer and 18
+            # significant digits" (C14): a type whose values are all integers (exponent >= 0), or whose radix is 10 (exactly -exponent
+            # fractional digits), has a bounded exact numeral; the fixed capacity must hold it, so the text is exact up to 18 digits.
+            # (radix 2/8 with negative exponents: the fixed capacity may legitimately be shorter than the expansion; see class below)
+            v = Fr(rep) * Fr(k["radix"]) ** k["exp"]
+            full, nsig = expansion(abs(v))
+            if full is not None and nsig <= 18:
+                pr = parse_text(txt)
+                if not (pr and pr[0] == v):
+                    viol(t14, "fixed_capacity_text_not_exact_for_integer_valued_or_decimal_type:" + form,
+                         {"in": "%s value(rep)=%d %s capacity=%d" % (k["k"], rep, form, k["capacity"]), "exp": ("-" if v < 0 else "") + full, "obs": txt})
+                else:
+                    t14["classes"]["fixed_capacity_exactness_demanded"] = t14["classes"].get("fixed_capacity_exactness_demanded", 0) + 1
+        elif k["kind"] != "int" and (kid, vidx) in long_text and txt != long_text[(kid, vidx)][1]:
+            t14["classes"]["fixed_capacity_text_shorter_than_long_buffer_text(info)"] = t14["classes"].get("fixed_capacity_text_shorter_than_long_buffer_text(info)", 0) + 1
     for T, res in ((T13, res13), (T14, res14)):
         if res is None:
             continue
@@ -272,6 +334,8 @@ def make_jobs(tier, seed, only=None):
         cfgs = [only["config"]]
     env = {"VERIF_SEED": str(seed), "VERIF_NRAND": "12" if tier == "quick" else "60", "VERIF_TEXT_EXH": "8" if tier == "quick" else "16"}
     stm = [(d, '%s("%s", %d, %d);' % (c, d, i, 200)) for i, (d, c) in enumerate(ks)]
+    if not only:
+        stm += capacity_stmts(tier, len(ks) + 10)
     jobs = []
     for cfg in cfgs:
         for i, sh in enumerate(core.shard(stm, 1 if only else (32 if tier == "quick" else 96))):
